@@ -67,7 +67,11 @@ pub fn flow_models<C: StateCheck + Copy>(ctx: &Ctx, shared: &Arc<Shared>, c: C, 
     if ctx.quick() {
         if spec.deep {
             let opts = vec![k(&[1, 0]), k(&[3, 1])];
-            explore(ctx, "FLOW deep 9 slots x 3", Layered { slots: alpha::flow_slots(2, &opts, Rich::Base), bases: alpha::bases(false) }, c, shared.clone());
+            let mut slots = alpha::flow_slots(2, &opts, Rich::Base);
+            if !spec.heavy_oracle {
+                slots.push(alpha::second_pv_slot(&opts));
+            }
+            explore(ctx, &format!("FLOW deep {} slots x 3", slots.len()), Layered { slots, bases: alpha::bases(false) }, c, shared.clone());
         }
         if spec.seeded {
             explore(ctx, "seeded: shipped files + <=1 line", Wide { alphabet: alpha::seeded_letters(), bases: alpha::shipped_bases(), max_add: 1, repeat: false }, c, shared.clone());
@@ -86,9 +90,16 @@ pub fn flow_models<C: StateCheck + Copy>(ctx: &Ctx, shared: &Arc<Shared>, c: C, 
             if spec.heavy_oracle {
                 let opts = vec![k(&[1, 0]), k(&[3, 1])];
                 explore(ctx, "FLOW deep 12 slots x 3", Layered { slots: alpha::flow_slots(2, &opts, Rich::Wide), bases: alpha::bases(false) }, c, shared.clone());
+                let mut slots = alpha::flow_slots(2, &opts, Rich::Base);
+                slots.push(alpha::second_pv_slot(&opts));
+                explore(ctx, "FLOW deep 10 slots x 3 (with a second PV field after the cogenerator)", Layered { slots, bases: alpha::bases(false) }, c, shared.clone());
             } else {
                 let opts = vec![k(&[1, 0]), k(&[0, 3]), k(&[3, 1])];
                 explore(ctx, "FLOW deep 12 slots x 4", Layered { slots: alpha::flow_slots(2, &opts, Rich::Wide), bases: alpha::bases(false) }, c, shared.clone());
+                let o2 = vec![k(&[1, 0]), k(&[3, 1])];
+                let mut slots = alpha::flow_slots(2, &o2, Rich::Base);
+                slots.push(alpha::second_pv_slot(&o2));
+                explore(ctx, "FLOW deep 10 slots x 3 (with a second PV field after the cogenerator)", Layered { slots, bases: alpha::bases(false) }, c, shared.clone());
             }
         }
         if spec.seeded {
